@@ -73,6 +73,8 @@ def _job(args):
         if kind == 'e1':
             from vf import engine
             fx = dict(fixed)
+            if '_must' in fx:
+                must_reach = tuple(fx.pop('_must'))
             fx['_gate'] = gate
             fx['_small'] = False
             r = engine.explore(fn, timeout=timeout, per_path_timeout=ppt,
